@@ -98,7 +98,8 @@ WKnown(v) ==
     [] v.k \in {"bref", "cond"} -> FALSE
     [] v.k \in {"cat", "alt"}  -> WKnown(v.a) /\ WKnown(v.b)
     [] v.k \in {"rep", "cap", "grp", "anch"} -> WKnown(v.a)
-    [] v.k = "look"            -> WKnown(v.a)
+    [] v.k = "look"            -> WKnown(v.a) /\ WKnown(v.x)      \* a reference to a group outside the operand, even in an
+                                                                \* assertion part: the operand cannot be examined in isolation
 RECURSIVE WMin(_)
 WMin(v) ==
   CASE v.k \in {"eps", "wb", "nwb", "bref", "cond"} -> 0
